@@ -40,6 +40,10 @@ pub struct HistCase {
     pub hash: HashId,
     pub levels: Vec<Level>,
     pub seed: u64,
+    /// the history starts from the key state with this counter (0 = freshly generated key); any
+    /// state is reachable from the fresh key by signing, so the same invariants apply
+    #[serde(default)]
+    pub start: u64,
     pub ops: Vec<Op>,
 }
 
@@ -268,14 +272,15 @@ pub fn check_history(c: &HistCase) -> Verdict {
         Out::Ok(v) => v,
         o => return fail(format!("keygen-{}", o.kind()), format!("{:?}", o.panic_msg())),
     };
-    let total: u64 = 1u64 << c.levels.iter().map(|l| l.1).sum::<u32>();
+    let total: u64 = 1u64 << c.levels.iter().map(|l| l.1).sum::<u32>().min(63);
+    let start = c.start.min(total - 1);
     let mut it = Interp {
         c,
         m: Model::rfc(c.hash),
         seed,
         pk,
-        current: sk,
-        released: 0,
+        current: with_counter(&sk, start),
+        released: start,
         total,
         ghost: HashMap::new(),
         wiped: false,
@@ -337,7 +342,7 @@ fn hist_case(maxops: usize) -> BoxedStrategy<HistCase> {
             let total: u64 = 1u64 << levels.iter().map(|l| l.1).sum::<u32>();
             (Just(hash), Just(levels), Just(seed), proptest::collection::vec(op_strategy(total), 0..maxops))
         })
-        .prop_map(|(hash, levels, seed, ops)| HistCase { hash, levels, seed, ops })
+        .prop_map(|(hash, levels, seed, ops)| HistCase { hash, levels, seed, start: 0, ops })
         .boxed()
 }
 
@@ -374,8 +379,37 @@ pub fn run(ctx: &Ctx) {
                 done += 6;
                 k += 1;
             }
-            full.push(HistCase { hash: *h, levels: s.to_vec(), seed: si as u64, ops });
+            full.push(HistCase { hash: *h, levels: s.to_vec(), seed: si as u64, start: 0, ops });
         }
     }
     ctx.enumerate("complete_lifetimes", full.len() as u64, false, |i| full[i as usize].clone(), check_history);
+
+    // taller shapes entered at chosen states: parents of height 10 in every region of their leaf
+    // range (child identity must follow the parent leaf), and the end of life of keys whose total
+    // height is 32..63 (the wipe must happen exactly at the last leaf, nothing is released after it)
+    let mut tall: Vec<HistCase> = Vec::new();
+    let th: Vec<HashId> = if ctx.quick() { vec![HashId::Sha256_128, HashId::Shake256_192] } else { ALL_HASHES.to_vec() };
+    for (hi, h) in th.iter().enumerate() {
+        for (si, shape) in [vec![(4u32, 10u32), (8u32, 2u32)], vec![(2, 10), (4, 5)], vec![(8, 2), (4, 10), (8, 2)]].iter().enumerate() {
+            if ctx.quick() && (hi + si) % 2 == 1 {
+                continue;
+            }
+            let total: u64 = 1u64 << shape.iter().map(|l| l.1).sum::<u32>();
+            let below: u64 = 1u64 << shape.iter().skip_while(|l| l.1 != 10).skip(1).map(|l| l.1).sum::<u32>();
+            // leaves 3, 259, 515, 771 of the H10 tree share their low byte; 255/256 and the last one are boundaries
+            for q in [3u64, 255, 259, 515, 771, 1023] {
+                let start = (q * below + below - 2).min(total - 1);
+                tall.push(HistCase { hash: *h, levels: shape.clone(), seed: 77, start, ops: vec![Op::SignBytes { msg: q as u16, accept: true }, Op::SignBytes { msg: 1, accept: false }, Op::SignViaKey { msg: 2, aux_none_entry: false }, Op::Skip(2)] });
+            }
+        }
+        for shape in [vec![(4u32, 5u32); 7], vec![(4, 10), (4, 10), (4, 10), (8, 2)], vec![(8, 5), (4, 5), (4, 5), (4, 5), (4, 5), (4, 5), (4, 5), (8, 5)]] {
+            let total: u64 = 1u64 << shape.iter().map(|l| l.1).sum::<u32>();
+            if shape.len() == 4 && ctx.quick() && hi == 1 {
+                continue;
+            }
+            tall.push(HistCase { hash: *h, levels: shape.clone(), seed: 78, start: total - 3, ops: vec![Op::Skip(2), Op::Reload, Op::SignBytes { msg: 5, accept: false }, Op::SignBytes { msg: 6, accept: true }, Op::SignBytes { msg: 7, accept: true }, Op::SignViaKey { msg: 8, aux_none_entry: true }, Op::Skip(3)] });
+            tall.push(HistCase { hash: *h, levels: shape.clone(), seed: 78, start: (1u64 << 32) - 2, ops: vec![Op::Skip(4)] });
+        }
+    }
+    ctx.enumerate("tall_shapes_entered_midlife", tall.len() as u64, false, |i| tall[i as usize].clone(), check_history);
 }
